@@ -289,3 +289,36 @@ def record_minimize(ctx):
         yield
     finally:
         so.minimize = real
+
+
+def cv2_split_stub(ctx):
+    def split(m):
+        ctx.stub_used("cv2.split(m): tuple of the channels m[..., c]")
+        m = np.asarray(m)
+        if m.ndim == 2:
+            return (m,)
+        return tuple(m[..., c] for c in range(m.shape[2]))
+    return split
+
+
+def cv2_merge_stub(ctx):
+    def merge(chs):
+        ctx.stub_used("cv2.merge(channels): stack along the last axis (a single channel stays 2-D)")
+        chs = list(chs)
+        if len(chs) == 1:
+            return np.asarray(chs[0])
+        return np.stack(chs, axis=-1)
+    return merge
+
+
+def cv2_resize_full_stub(ctx):
+    """cv2.resize(src, dsize=..., fx=..., fy=..., interpolation=INTER_AREA): dsize or integer factors, via the area contract"""
+    base = cv2_resize_area_stub(ctx)
+
+    def resize(src, dsize=None, fx=None, fy=None, interpolation=None, **k):
+        src_a = np.asarray(src)
+        if dsize is None:
+            w, h = int(round(src_a.shape[1] * fx)), int(round(src_a.shape[0] * fy))
+            dsize = (w, h)
+        return base(src_a, dsize, interpolation=interpolation)
+    return resize
